@@ -40,10 +40,13 @@ ASSUMPTIONS = [
     "32 bits; runs leaving the domain are abandoned for that application and counted, not judged",
     "shared-memory arrays are compared at the ret_arr instruction (the simulator's SharedMemory aliases the array "
     "afterwards, which the SDK relies on; later freshness is not demanded either way)",
-    "two subroutines of the same application are never in flight together",
+    "subroutines of one application may be in flight together (a third of the stormy runs); every instruction but a "
+    "blocked wait is atomic, so the reference interpreter is stepped in the same order; when the operands of a blocked "
+    "wait_single are changed by another subroutine the outcome is not judged (only the line named by a fault is)",
 ]
 PROBES = ["fault:planted", "fault:emergent", "branch:taken", "branch:not-taken", "interleaved-apps", "step-cap",
-          "later-subroutine-reuses-state", "jump-past-end"]
+          "later-subroutine-reuses-state", "jump-past-end", "wait-blocked-poll", "wait-satisfied-by-another-subroutine",
+          "fault-after-suspension", "wait-operands-changed-while-blocked"]
 
 POOL = [("R", 0), ("R", 1), ("R", 2), ("R", 3), ("C", 0), ("C", 1), ("Q", 0), ("Q", 1), ("M", 0), ("R", 14), ("C", 15)]
 NEVER = [("R", 15), ("M", 15)]
@@ -57,12 +60,13 @@ class Gen:
 
     WEIGHTS = [4, 3, 2, 2, 3, 3, 1, 1, 4, 1, 1, 1, 2, 2, 1]
 
-    def __init__(self, ch: Choices, unit_size: int, plant: bool, weights: Optional[List[int]] = None):
+    def __init__(self, ch: Choices, unit_size: int, plant: bool, weights: Optional[List[int]] = None, waits: bool = False):
         self.ch = ch
-        self.weights = weights or self.WEIGHTS
+        self.weights = list(weights or self.WEIGHTS) + ([3] if waits else [])
         self.shadow = AppState(unit_size)
         self.plant = plant
         self.planted = 0
+        self.wait_targets: List[Tuple[int, int]] = []
 
     def reg(self, pool=POOL):
         return pool[self.ch.draw(len(pool), "reg")]
@@ -101,6 +105,10 @@ class Gen:
             return (ch.pick(["addm", "subm"]), self.reg(), self.reg(), self.reg(), self.reg())
         if k == 3:
             return ("array", self.reg([("C", 0), ("C", 1), ("R", 0), ("R", 14)]), ch.draw(3, "addr"))
+        if k == 4 and self.wait_targets and ch.flag(1, 2, "store-for-wait"):
+            addr, idx = self.wait_targets[ch.draw(len(self.wait_targets), "wt")]
+            r = self.reg([("R", 3), ("C", 1), ("M", 0)])
+            return [("set", r, idx), ("store", self.reg(), addr, r)]
         if k in (4, 5, 7):
             addrs = sorted(sh.arrays) or [0]
             addr = addrs[ch.draw(len(addrs), "addr")] if not ch.flag(1, 12) else ch.draw(4, "addr")
@@ -130,6 +138,16 @@ class Gen:
         if k == 11:
             addrs = sorted(sh.arrays) or [0]
             return ("ret_arr", addrs[ch.draw(len(addrs), "addr")] if not ch.flag(1, 12) else ch.draw(4, "addr"))
+        if k == 15:
+            # wait for an entry another in-flight subroutine of the same application may (or may never) define
+            addrs = sorted(sh.arrays) or [0]
+            addr = addrs[ch.draw(len(addrs), "addr")]
+            ridx = self.idx_reg_for(addr, want_valid=not ch.flag(1, 8))
+            if ch.flag(2, 3, "wait-undef") and sh.arrays.get(addr) and 0 <= sh.regs.get(ridx, -1) < len(sh.arrays[addr]):
+                # make it an entry that is undefined now, and remember it so that a later program (another lane) aims a store at it
+                self.wait_targets.append((addr, sh.regs[ridx]))
+                return [("undef", addr, ridx), ("wait_single", addr, ridx)]
+            return ("wait_single", addr, ridx)
         if k in (12, 13):
             op = "qalloc" if k == 12 else "qfree"
             q = self.reg([("Q", 0), ("Q", 1)])
@@ -198,6 +216,68 @@ class Gen:
             out.append(t)
         return out
 
+    def handshake_programs(self) -> Tuple[List[tuple], List[tuple]]:
+        """Two programs for two lanes of one application that meet at a wait: the first declares an array and blocks on
+        an undefined entry; the second (started while the first is blocked, or at a random moment) defines that entry --
+        or pulls the rug: moves the wait's index register past the end / re-declares the array shorter, so that the
+        suspended instruction faults when it is resumed.  Everything up to the wait is fault-free by construction."""
+        ch = self.ch
+        n = 1 + ch.draw(3, "hs-n")
+        addr = ch.draw(3, "hs-addr")
+        idx = ch.draw(n, "hs-idx")
+        rw = [("R", 2), ("C", 1), ("M", 0), ("R", 14)][ch.draw(4, "hs-rw")]
+        p0: List[tuple] = self.preamble()
+        for _ in range(ch.draw(12, "hs-pad0")):      # the wait sits at a varying line
+            p0.append(("set", ("R", 0), ch.draw(4, "pad")))
+        p0 += [("set", ("C", 0), n), ("array", ("C", 0), addr), ("set", rw, idx), ("wait_single", addr, rw)]
+        for t in p0[len(POOL):]:
+            self._shadow_step(t)
+        tail_n = ch.draw(6, "hs-tail")
+        for _ in range(tail_n):
+            t = self.one(len(p0), len(p0) + tail_n)
+            for t1 in (t if isinstance(t, list) else [t]):
+                p0.append(t1)
+                self._shadow_step(t1)
+        p0 = [((t[0], t[1], t[2], min(t[3], len(p0))) if t[0] in ("beq", "bne", "blt", "bge") else
+               (t[0], t[1], min(t[2], len(p0))) if t[0] in ("bez", "bnz") else
+               ("jmp", min(t[1], len(p0))) if t[0] == "jmp" else t) for t in p0]
+        p1: List[tuple] = []
+        for _ in range(ch.draw(8, "hs-pad1")):        # the other lane is at a different line when it acts
+            p1.append(("set", NEVER[1], ch.draw(4, "pad")))
+        how = ch.weighted([4, 2, 2, 1], "hs-how")
+        if how == 0:
+            p1 += [("set", NEVER[1], ch.draw(5, "hs-val")), ("set", NEVER[0], idx), ("store", NEVER[1], addr, NEVER[0])]
+        elif how == 1:
+            p1 += [("set", rw, n + ch.draw(3, "hs-over"))]                       # index past the end while blocked
+        elif how == 2:
+            p1 += [("set", NEVER[1], idx), ("array", NEVER[1], addr)]          # re-declared with length idx (<= idx: too short)
+        else:
+            p1 += [("set", NEVER[1], 0)]                                         # never released
+        for _ in range(ch.draw(4, "hs-pad2")):
+            p1.append(("set", NEVER[1], ch.draw(4, "pad")))
+        for t in p1:
+            self._shadow_step(t)
+        return p0, p1
+
+    def feeder_program(self) -> List[tuple]:
+        """A program for another lane that defines the entries earlier programs wait for (in some order, some of them),
+        between a few harmless instructions, so that blocked waits are actually released by a concurrent subroutine."""
+        ch = self.ch
+        # only registers no other program writes (NEVER): the feeder must not disturb the operands of the blocked waits
+        prog: List[tuple] = [("set", NEVER[1], ch.draw(4, "feedval"))]
+        tg = list(self.wait_targets)
+        while tg:
+            addr, idx = tg.pop(ch.draw(len(tg), "feed"))
+            if ch.flag(1, 4, "feed-skip"):
+                continue
+            for _ in range(ch.draw(3, "feed-pad")):
+                prog.append(("set", NEVER[1], ch.draw(4, "pad")))
+            prog.append(("set", NEVER[0], idx))
+            prog.append(("store", NEVER[1], addr, NEVER[0]))
+        for t in prog:
+            self._shadow_step(t)
+        return prog
+
     def _shadow_step(self, t: tuple) -> None:
         if t[0] in ("beq", "bne", "blt", "bge", "bez", "bnz", "jmp"):
             return
@@ -252,30 +332,68 @@ def run(ch: Choices, opts: Dict[str, Any]) -> Dict[str, Any]:
     for a in range(n_apps):
         unit = 1 + ch.draw(4, "unit")
         n_subs = 1 + ch.draw(10 if deep else 4, "nsubs")
-        g = Gen(ch, unit, plant=ch.flag(1, 2, "plantflag"))
-        progs = [g.program(first=(k == 0)) for k in range(n_subs)]
+        # lanes: subroutines of ONE application in flight together (what a host gets with non-blocking flushes); they
+        # share the application's registers, arrays and unit module, and one may wait for an entry another defines
+        n_lanes = 1 if calm or not ch.flag(1, 3, "lanes") else 2
+        g = Gen(ch, unit, plant=ch.flag(1, 2, "plantflag"), waits=n_lanes > 1)
+        feeder = False
+        if n_lanes > 1 and ch.flag(1, 2, "handshake"):
+            hs0, hs1 = g.handshake_programs()
+            lanes = [[hs0] + [g.program(first=False) for k in range(ch.draw(3, "nsubs1"))],
+                     [hs1] + [g.program(first=False) for k in range(ch.draw(2, "nsubs2"))]]
+            feeder = True
+            bump(probes, "handshake-shape")
+        else:
+            lanes = [[g.program(first=(k == 0)) for k in range(n_subs)]]
+        if n_lanes > 1 and len(lanes) == 1:
+            feeder = bool(g.wait_targets) and ch.flag(2, 3, "feeder")
+            lanes.append(([g.feeder_program()] if feeder else [])
+                         + [g.program(first=False) for k in range(ch.draw(3, "nsubs2") + (0 if feeder else 1))])
+        progs = lanes[0]
         if g.planted:
             bump(faults, "planted-program-fault", g.planted)
+        if n_lanes > 1:
+            bump(faults, "same-application-subroutines-in-flight-together")
         node.init_app(a, unit)
-        apps.append({"id": a, "unit": unit, "progs": progs, "model": AppState(unit), "abandoned": None})
-        progs_digest.append(repr(progs))
+        apps.append({"id": a, "unit": unit, "progs": progs, "lanes": lanes, "model": AppState(unit), "abandoned": None,
+                     "live": n_lanes, "blocked": 0, "feeder": bool(n_lanes > 1 and feeder)})
+        progs_digest.append(repr(lanes))
 
     sample = {"config": {"apps": n_apps, "mode": mode, "calm": calm,
-                         "units": [a["unit"] for a in apps]},
-              "programs": {a["id"]: a["progs"] for a in apps} if opts.get("want_trace") or True else None}
+                         "units": [a["unit"] for a in apps], "lanes": [len(a["lanes"]) for a in apps]},
+              "programs": {a["id"]: (a["progs"] if len(a["lanes"]) == 1 else {"lane%d" % i: l for i, l in enumerate(a["lanes"])})
+                           for a in apps}}
 
-    def app_task(app):
+    def app_task(app, lane=0):
+        try:
+            if lane:
+                # the second lane starts some turns into the first one's work
+                if app.get("feeder") and ch.flag(2, 3, "feeder-when-blocked"):
+                    yield ("block", lambda: app["blocked"] > 0 or app["live"] <= 1)
+                else:
+                    for _ in range(ch.draw(30, "lane-start")):
+                        yield ("sleep", 1)
+            yield from lane_task(app, lane)
+        finally:
+            app["live"] -= 1
+
+    def lane_task(app, lane):
         aid = app["id"]
         st: AppState = app["model"]
-        for k, prog in enumerate(app["progs"]):
-            if k > 0:
+        for k0, prog in enumerate(app["lanes"][lane]):
+            k = k0 if lane == 0 else f"{lane}.{k0}"
+            if k0 > 0:
                 bump(probes, "later-subroutine-reuses-state")
             raw = subroutine_bytes(prog, aid, node.flavour)
             g = node.handle_raw(raw)
             mpc = 0
             nsteps = 0
             where_sub = f"sub{k}"
+            wait_polled = False
+            wait_at: Any = None      # (pc, index value, array object) at the first poll of the wait the lane is blocked in
             while True:
+                if app["abandoned"]:
+                    return
                 if mpc >= len(prog):
                     # model says the subroutine is over: the real generator must finish without further instructions
                     try:
@@ -285,6 +403,32 @@ def run(ch: Choices, opts: Dict[str, Any]) -> Dict[str, Any]:
                     raise Violation("lockstep", "lockstep|extra-instruction-after-end",
                                     {"app": aid, "sub": k, "yield": repr(y), **sample})
                 ins = prog[mpc]
+                if ins[0] == "wait_single":
+                    ops_now = (mpc, st.regs.get(ins[2]), st.arrays.get(ins[1]))
+                    if wait_at is None or wait_at[0] != mpc:
+                        wait_at = ops_now
+                    elif wait_at[1] != ops_now[1] or wait_at[2] is not ops_now[2]:
+                        # another subroutine of the application changed the index register or re-declared the array while
+                        # this one was suspended inside the wait: whether the instruction looks at the new or the old
+                        # entry is not prescribed, so the outcome is not judged -- but a fault raised now is raised by
+                        # THIS instruction and must name its line
+                        bump(probes, "wait-operands-changed-while-blocked")
+                        try:
+                            next(g)
+                        except StopIteration:
+                            pass
+                        except Violation:
+                            raise
+                        except Exception as e:  # noqa: BLE001
+                            bump(probes, "fault-after-suspension")
+                            if not str(e).startswith(f"At line {mpc}:"):
+                                raise Violation("fault", "fault|wrong-line|after-suspension",
+                                                {"app": aid, "sub": k, "pc": mpc, "instr": ins, "error": str(e)[:200], **sample})
+                        app["abandoned"] = "operands of a blocked wait changed"
+                        bump(probes, "abandoned:blocked-wait-operands")
+                        return
+                else:
+                    wait_at = None
                 # what does the model say about this instruction?
                 exp_fault: Optional[str] = None
                 before = None
@@ -324,6 +468,23 @@ def run(ch: Choices, opts: Dict[str, Any]) -> Dict[str, Any]:
                         pass
                     break
                 # real executor executed one instruction without raising
+                if y == ("wait",):
+                    # suspended inside a wait: the model must say the entry is (still) undefined
+                    if not (ins[0] == "wait_single" and exp_fault is None and npc == mpc):
+                        raise Violation("lockstep", f"lockstep|blocked-unexpectedly|{ins[0]}",
+                                        {"app": aid, "sub": k, "pc": mpc, "instr": ins, "model_fault": exp_fault, **sample})
+                    _cmp_state(node, aid, st, "wait-poll", {"app": aid, "sub": k, "pc": mpc, "instr": ins, **sample})
+                    bump(probes, "wait-blocked-poll")
+                    if not wait_polled:
+                        app["blocked"] += 1
+                    wait_polled = True
+                    nsteps += 1
+                    if app["live"] <= 1 or nsteps >= STEP_CAP:
+                        # nobody is left who could define the entry (or the bound is reached): the lane is given up
+                        bump(probes, "wait-never-satisfied")
+                        return
+                    yield y
+                    continue
                 if not (isinstance(y, tuple) and y and y[0] == "instr"):
                     raise Violation("lockstep", "lockstep|unexpected-yield", {"yield": repr(y), **sample})
                 if exp_fault is not None:
@@ -347,6 +508,10 @@ def run(ch: Choices, opts: Dict[str, Any]) -> Dict[str, Any]:
                     bump(probes, "branch:taken" if npc != mpc + 1 or ins[-1] == mpc + 1 else "branch:not-taken")
                 if npc is not None and npc >= len(prog) and ins[0] in ("beq", "bne", "blt", "bge", "bez", "bnz", "jmp") and npc != mpc + 1:
                     bump(probes, "jump-past-end")
+                if ins[0] == "wait_single" and wait_polled:
+                    bump(probes, "wait-satisfied-by-another-subroutine")
+                    app["blocked"] -= 1
+                wait_polled = False
                 trace.add("i", aid, k, mpc, ins[0])
                 mpc = npc
                 nsteps += 1
@@ -357,7 +522,8 @@ def run(ch: Choices, opts: Dict[str, Any]) -> Dict[str, Any]:
                 yield y
 
     for app in apps:
-        sched.spawn(f"app{app['id']}", app_task(app), party=f"app{app['id']}")
+        for ln in range(len(app["lanes"])):
+            sched.spawn(f"app{app['id']}" + (f".{ln}" if ln else ""), app_task(app, ln), party=f"app{app['id']}" + (f".{ln}" if ln else ""))
     cap = 4000
     while sched.step() is not None:
         if sched.steps > cap:
